@@ -109,6 +109,9 @@ def product():
     for a in tvals:
         x, vx = operand_forms(a, "x", False)
         out.append((["tern", x, ["num", "1", 0], ["num", "2", 0]], vx, "?:"))
+        for br in ([["bool", True], ["bool", False]], [["bool", False], ["bool", True]], [["bool", True], ["bool", True]], [x, x], [["ref", "nil"], ["ref", "nil"]], [["num", "1", 0], ["num", "1", 0]]):
+            out.append((["tern", x, br[0], br[1]], vx, "?: same/bool branches"))
+            out.append((["list", [["tern", x, br[0], br[1]]]], vx, "[?:]"))
         for op in ("AND", "OR"):
             out.append((["un", op, x], vx, "prefix " + op))
             out.append((["un", op, ["list", [["bool", True], x]]], vx, "prefix " + op + " [..]"))
